@@ -104,10 +104,36 @@ def r1_validators(ctx):
         else:
             import re as _re
             filtered = bool(_re.search(r"\bfor\b.*\bif\b", text)) or "filter(" in text
+            m_ = _re.search(r"_raise_if_bad_nodes_in_edges\(([^,()]+),", text) if callee == "_raise_if_bad_nodes_in_edges" else None
+            cn_ = Canon(f.node)
+            cn_.lines(False, True)
+            first = m_.group(1).strip() if m_ else None
+            first_src = (cn_.real_name(first) or first) if first and first.startswith("%") else first
             if filtered:
                 ctx.violation("C15.R1", f, f.node, f"`{text[:110]}` hands the validator a filtered part of the graph: the malformed definitions among the nodes left out are accepted", construct=f"arguments of {callee}")
+            elif first is not None and first != "$0.direct_ancestors" and "children" in (first_src or ""):
+                ctx.violation("C15.R1", f, f.node, f"the refusal of unknown variables / self references is run on `{first_src}` (a mapping built over the declared nodes only), not on the declared "
+                              "ancestors `self.direct_ancestors`: a dependency on a name that is not a variable is invisible there and is silently dropped", construct=f"arguments of {callee}")
             else:
                 ctx.anchor(False, "C15.R1", f, f.node, "", f"call of {callee} with the complete structures", construct=f"arguments of {callee}")
+    # wherever it is called from, the unknown-variable / self-reference refusal looks at the declared ancestors: that mapping is the only
+    # place where a name that is not a variable can appear (the children map is built over the declared nodes)
+    n_calls = 0
+    for b_ in ix.classes[(DAG, CLS)].body:
+        if not isinstance(b_, ast.FunctionDef):
+            continue
+        fm = ix.funcs[(DAG, f"{CLS}.{b_.name}")]
+        for c in ast.walk(b_):
+            if isinstance(c, ast.Call) and isinstance(c.func, ast.Attribute) and c.func.attr == "_raise_if_bad_nodes_in_edges" and c.args:
+                n_calls += 1
+                a0 = U(c.args[0])
+                if a0 == "self.direct_ancestors":
+                    ctx.ok("C15.R1", fm, c, "unknown variables / self references looked for in the declared ancestors", construct="edges checked for unknown variables")
+                elif "children" in a0:
+                    ctx.violation("C15.R1", fm, c, f"the refusal of unknown variables / self references is run on `{a0}` (a mapping built over the declared nodes only), not on the declared "
+                                  "ancestors `self.direct_ancestors`: a dependency on a name that is not a variable is invisible there and is silently dropped", construct="edges checked for unknown variables")
+                else:
+                    ctx.unknown("C15.R1", fm, c, f"the refusal of unknown variables is run on `{a0}`", construct="edges checked for unknown variables")
     f = ix.func(DAG, f"{CLS}.compute_topological_order_and_path_matrix", "C15.R1")
     L = Canon(f.node).lines(False, True)
     ok = unify(L, ["?sn += (?n,)", "if set(?sn) != set(?nodes)", "return (?sn, ?pm)"]) is not None
@@ -164,8 +190,11 @@ def r2_determinism(ctx):
         for node, it in iters:
             k = _orderedness(it, ordered, unordered)
             # a comprehension producing a set/dict keyed result from an unordered source is order-insensitive only if the result is a set: not in these functions
+            if k == "unknown":
+                ctx.unknown("C15.R2", f, it, f"cannot tell whether `{U(it)[:70]}` is an ordered collection (an order-producing function must only iterate ordered sources)")
+                continue
             ctx.check(k == "ordered", "C15.R2", f, it, f"iteration over an ordered source `{U(it)[:50]}`",
-                      f"`{U(it)[:70]}` iterates a {'set-like' if k == 'unordered' else 'possibly unordered'} collection inside an order-producing function: the emitted order "
+                      f"`{U(it)[:70]}` iterates a set-like collection inside an order-producing function: the emitted order "
                       "depends on hashing (string hashes change from one process to the next)")
     # tensor sorts are not stable by default: ties (equal keys) come back in an unspecified order
     for fn in ORDER_FUNCS:
